@@ -76,8 +76,8 @@ class Ops(SeriesOps):
             return self.M.ser_of(f, key)
         if isinstance(key, list) and all(isinstance(k, str) for k in key):
             return self.project(f, key, node)
-        if self._is_mask(key):
-            return self.filter(f, key, node)
+        if self._is_mask(key) or isinstance(key, Ser):
+            return self.filter(f, key, node)      # df[<Series>] is always boolean indexing
         if isinstance(key, tuple) and key and key[0] == "slice":
             self.log("row-subset", node, what="slice", base=f.base)
             return f.derive(rows=T.and_(f.rows, ("rowslice", key[1])))
